@@ -64,8 +64,16 @@ def sign_table(P, chk):
     except mir.TooManyPaths:
         chk.fail(R_SIGN, "FieldMap::amount|analysable", b.loc(), "more than 6000 paths")
         return
+    err_guard_sets = []
     for p in paths:
         pb = mir.path_body(b, p.blocks)
+        if p.shape and p.shape[0] == "assign" and p.shape[2].get("k") == "aggregate" and p.shape[2].get("variant") == "Err":
+            g_ = set()
+            for a in p.atoms:
+                if a.kind == "call" and short(a.subject[0]) == "is_empty" and len(a.label) == 1 and a.subject[2] in p.blocks:
+                    k2, _ = resolve_key(pb, pb.term(p.blocks.index(a.subject[2]))["args"][0])
+                    g_.add(("/".join(sorted(k2)), a.label[0]))
+            err_guard_sets.append(g_)
         oks = [(bb, v, rv) for bb, v, rv in q.ok_err_assignments(pb) if v == "Ok"]
         if not oks or any(v == "Err" or v.startswith("call:") for bb, v, rv in q.ok_err_assignments(pb)):
             continue
@@ -83,6 +91,17 @@ def sign_table(P, chk):
                     guards.add(("%s.is_empty" % "/".join(sorted(k2)), a.label[0]))
             if a.kind == "variant" and acct is not None and any(r.kind == "param" and r.name.startswith("%d:" % acct) for r in a.subject):
                 accts.add(tuple(a.label))
+            if a.kind == "call" and acct is not None and "PartialEq" in str(a.subject[0]) and len(a.label) == 1 and a.subject[2] in p.blocks:
+                # `at == AccountType::Liability` (derived PartialEq against a constant)
+                ct_ = b.term(a.subject[2])
+                if len(ct_["args"]) == 2:
+                    for i_ in (0, 1):
+                        v_ = q.promoted_variant(b, ct_["args"][i_])
+                        if v_ is not None and any(r.kind == "param" and r.name.startswith("%d:" % acct) for r in prov(b, ct_["args"][1 - i_])):
+                            is_eq = str(a.subject[0]).rsplit("::", 1)[-1] == "eq"
+                            holds = a.label[0] if is_eq else (not a.label[0])
+                            other = {"Liability": "Asset", "Asset": "Liability"}.get(v_)
+                            accts.add((v_,) if holds else ((other,) if other else ("~" + v_,)))
         row = (tuple(sorted(keys)), tuple(sorted(negs)), tuple(sorted(guards)), tuple(sorted(accts)))
         if row not in seen:
             seen.add(row)
@@ -117,6 +136,9 @@ def sign_table(P, chk):
                 g.append(("/".join(sorted(k2)), lab))
         if ("Credit", True) in g and ("Debit", True) in g:
             both = True
+    # the same, read off the enumerated paths (covers `match (credit.is_empty(), debit.is_empty())`)
+    if any(("Credit", True) in g_ and ("Debit", True) in g_ for g_ in err_guard_sets):
+        both = True
     chk.require(both, R_SIGN, "FieldMap::amount|credit and debit both empty is an error", b.loc(), "no Err behind both columns being empty", "Err")
 
 
